@@ -44,6 +44,18 @@ impl ContextHandle {
         }
     }
 
+    /// Allocates the next subscription identifier. Valid identifiers are 1..=268_435_455
+    /// (a non-zero Variable Byte Integer), so the counter is folded into that range.
+    ///
+    fn next_subscription_id(&self) -> u32 {
+        const MAX: u32 = 268_435_455;
+        self.sub_id
+            .fetch_add(1, Ordering::Relaxed)
+            .wrapping_sub(1)
+            % MAX
+            + 1
+    }
+
     /// Verification hook (only with `--cfg poster_verif`): presets the packet and subscription
     /// identifier counters, to start next to their wrap-around.
     ///
@@ -248,7 +260,7 @@ impl ContextHandle {
 
         let packet = opts
             .packet_identifier(self.next_packet_id())
-            .subscription_identifier(self.sub_id.fetch_add(1, Ordering::Relaxed))
+            .subscription_identifier(self.next_subscription_id())
             .build()?;
 
         let subscription_identifier = NonZero::from(packet.subscription_identifier.unwrap())
